@@ -48,11 +48,14 @@ def spy_open(self, *a, **k):
 
 Path.open = spy_open
 try:
-    SEG = ["..", ".", "...", "", "a", "mw", "\x01", " ", ":", "//", "\n..", ".\x01.", ".\t.", "..:"]
+    SEG = ["..", ".", "...", "", "a", "mw", "\x01", " ", ":", "//", "\n..", ".\x01.", ".\t.", "..:", "\\", "..\\"]
     names = ["/" + str(secret.with_suffix("")), str(secret.with_suffix("")), "//" + str(secret.with_suffix("")),
              rel_to_secret, rel_to_secret.replace("..", ".\x01."), rel_to_secret.replace("/", ":"),
              rel_to_secret.replace("..", "...."), " " + rel_to_secret, rel_to_secret.replace("..", ". ."),
-             "\x00/" + str(secret.with_suffix("")), ":" + str(secret.with_suffix("")), "mw", "ustring", "_sandbox_phase1"]
+             "\x00/" + str(secret.with_suffix("")), ":" + str(secret.with_suffix("")), "mw", "ustring", "_sandbox_phase1",
+             "\\" + str(secret.with_suffix("")), str(secret.with_suffix("")).replace("/", "\\"),
+             "\\" + str(secret.with_suffix("")).lstrip("/"), rel_to_secret.replace("/", "\\"), "\\\\" + str(secret.with_suffix("")),
+             "a\\..\\" + rel_to_secret, "\\/" + str(secret.with_suffix("")), "\t" + str(secret.with_suffix("")), "%2e%2e/" + rel_to_secret]
     k = 3 if tier == "quick" else 4
     for n in range(1, k + 1):
         for t in itertools.product(SEG, repeat=n):
